@@ -111,7 +111,7 @@ class Convert(Component):
     rule = "numeric column with >=1 present and >=1 missing value, or an int column"
 
     def examples(self, tier):
-        return 300 if tier == "quick" else 3000
+        return 600 if tier == "quick" else 3000
 
     def strategy(self, tier):
         return conv_case(tier)
